@@ -139,6 +139,10 @@ func (d *uintDecoder) DecodeStream(s *Stream, depth int64, p unsafe.Pointer) err
 	if bytes == nil {
 		return nil
 	}
+	if s.numberGoesOn() {
+		// 1.5, 1e2: a number, but not an integer
+		return d.typeError(bytes, s.totalOffset())
+	}
 	u64, err := d.parseUint(bytes)
 	if err != nil {
 		return d.typeError(bytes, s.totalOffset())
